@@ -276,7 +276,7 @@ def _items(em, items, width, mode, flat, pen="white"):
     else:
       raise GrammarError("unknown item %r" % (it,))
     peak = max(peak, used)
-  real = [i for i in items if i["t"] not in ("pad", "ch2")]
+  real = [i for i in items if i["t"] not in ("pad", "ch2", "bs")]      # (a backspace pair leaves the row as it was)
   if real and real[-1]["t"] == "mid":
     flat.labels.add("row-ends-with-mid-row-code")
   if peak > width:
@@ -333,6 +333,7 @@ def flatten(script):
   prev_style = None
   left = leftovers(script["caps"])
   paint_tops = []
+  block = set()
   still_painted = set()
   for ci, cap in enumerate(script["caps"]):
     style = cap["style"]
@@ -380,10 +381,14 @@ def flatten(script):
         flat.labels.add("pop:EDM-before-EOC")
       em.code(enc_ctl("EOC"), "EOC", "EOC" in single)
     elif style == "paint":
-      top = min(r["row"] for r in rows)
-      if paint_tops and top > min(paint_tops):
-        flat.labels.add("paint:caption-below-earlier-paint-on-caption")
-      paint_tops.append(top)
+      # every PAC starts a new state of the painted block, whose top row is the smallest row painted since the last EDM
+      if not (ci and script["caps"][ci - 1]["style"] == "paint" and script["caps"][ci - 1].get("edm") is None):
+        block = set()
+      for r in rows:
+        block.add(r["row"])
+        if paint_tops and min(block) > min(paint_tops):
+          flat.labels.add("paint:caption-below-earlier-paint-on-caption")
+        paint_tops.append(min(block))
       if ci and script["caps"][ci - 1]["style"] == "paint" and script["caps"][ci - 1].get("edm") is None:
         flat.labels.add("paint:accumulates-without-EDM")
         if set(_rows_of(cap)) & still_painted:
@@ -561,6 +566,16 @@ def _row_items(draw, width, prof, mode, pen_color="white"):
     items.insert(draw(st.integers(0, len(items))), {"t": "pad", "n": draw(st.integers(1, 6))})
   if mode == "paint" and not prof["paint_c4"]:
     _avoid_c4(items)
+  # an undoubled control code followed (after padding or another channel's burst at most) by the same code sent once would be
+  # read as its redundant copy: the second one is doubled
+  last = None
+  for it in items:
+    if it["t"] in ("pad", "ch2"):
+      continue
+    sig = ("mid", it["color"], it["ul"]) if it["t"] == "mid" else ("spc", it["c"]) if it["t"] == "spc" else None
+    if sig is not None and sig == last and it.get("single"):
+      del it["single"]
+    last = sig if sig is not None and it.get("single") else None
   return items
 
 
